@@ -77,6 +77,7 @@ type ckServer struct {
 	kv     *server.Server
 	dir    string
 	redis  int
+	grpc   int
 	nsConf []*node.NamespaceConfig
 }
 
@@ -109,7 +110,7 @@ func ckStartServer(dir, eng string, P int, hosted []int, snapCount int) (*ckServ
 	if err != nil {
 		return nil, err
 	}
-	cs := &ckServer{kv: kv, dir: dir, redis: ports[0]}
+	cs := &ckServer{kv: kv, dir: dir, redis: ports[0], grpc: ports[3]}
 	for _, p := range hosted {
 		nc := node.NewNSConfig()
 		nc.Name = "default-" + strconv.Itoa(p)
